@@ -553,6 +553,25 @@ fn probe_writers() {
         fixed_point: None,
         value: Value::StringVal("a\u{20ac}b".to_string()),
     };
+    // variable info announced but no name / unit given: each is written as length 1 + NUL
+    let unnamed = Argument {
+        type_info: TypeInfo { kind: TypeInfoKind::Unsigned(TypeLength::BitLength8), coding: StringCoding::UTF8, has_variable_info: true, has_trace_info: false },
+        name: None,
+        unit: None,
+        fixed_point: None,
+        value: Value::U8(0x7E),
+    };
+    for big in [false, true] {
+        use byteorder::{BigEndian, LittleEndian};
+        let got = if big { unnamed.as_bytes::<BigEndian>() } else { unnamed.as_bytes::<LittleEndian>() };
+        let mut want = w32(big, 0x41 | 0x800 | 0x8000).to_vec();
+        want.extend_from_slice(&w16(big, 1));
+        want.extend_from_slice(&w16(big, 1));
+        want.extend_from_slice(&[0, 0, 0x7E]);
+        if got != want {
+            report("Argument::as_bytes", format!("{:?} big={}", unnamed, big), format!("wrote {} but the layout (announced lengths cover the NUL terminators that follow) is {}", hex(&got), hex(&want)));
+        }
+    }
     let payloads = vec![
         PayloadContent::NonVerbose(0x01020304, vec![9, 8, 7]),
         PayloadContent::ControlMsg(ControlType::Response, vec![0x11, 0, 1]),
